@@ -37,6 +37,12 @@ SIM_EVENT_TYPES = [
 ]
 _TYPE_NAME = {id(et): n for n, et in SIM_EVENT_TYPES}
 
+# messages of injected handler faults: text that is harmless as data but not
+# when a logger / formatter treats it as a template
+FAULT_MESSAGES = ["injected fault in %s", "utilisation above 95%% in %s", "bad key {%s}",
+                  "{0} {self} %%s %%d in %s", "", "line one\nline two %s",
+                  "\u00e9v\u00e9nement %s \u2713", "%s" + " x" * 400]
+
 EXC_TYPES = {"RuntimeError": RuntimeError, "ValueError": ValueError,
              "ZeroDivisionError": ZeroDivisionError, "KeyError": KeyError,
              "DSOLError": DSOLError, "AssertionError": AssertionError}
@@ -162,6 +168,11 @@ class ProgramModel(DSOLModel):
                 self.prebuilt[a[2]] = SimEvent(runner.tv(a[1]), self, "h", a[3], eid=a[2])
 
     def construct_model(self):
+        if getattr(self, "fail_construct", False):
+            # fault: the user's construct_model raises (once); the caller retries
+            self.fail_construct = False
+            self.r.fault("construct_model_raise")
+            raise RuntimeError("injected fault in construct_model")
         self.handles = {}
         self.r.on_construct(self)
         for i, a in enumerate(self.r.prog["roots"]):
@@ -189,6 +200,15 @@ class ProgramModel(DSOLModel):
         if r.ext is not None:
             r.ext.on_leaf(r, self, tag)
         r.after_handler(self, "L%s" % tag)
+
+
+class SubEventA(SimEvent):
+    """User subclasses of SimEvent (ids must still follow creation order across
+    all event classes)."""
+
+
+class SubEventB(SimEvent):
+    pass
 
 
 class CustomEvent(SimEventInterface):
@@ -272,6 +292,11 @@ class Runner:
         """clock-unit number -> value of the simulator's time type"""
         c = self.prog["clock"]
         if c == "float":
+            if self.prog.get("int_literals") and isinstance(x, (int, float)) \
+                    and not isinstance(x, bool) and float(x).is_integer():
+                # the model / caller writes whole numbers as int literals on a
+                # float clock (as the library's own demos do)
+                return int(x)
             return float(x)
         if c == "int":
             return int(x) if not (isinstance(x, float) and math.isnan(x)) else x
@@ -326,7 +351,20 @@ class Runner:
                 child = a[1] if kind == "now" else a[2]
                 if kind == "pre":
                     ev = sim.schedule_event(model.prebuilt[a[2]])
-                elif self.prog.get("custom_events") and child % 3 == 0:
+                elif self.prog.get("custom_events") in ("subclass", "both") and child % 3 != 0:
+                    # objects of SimEvent subclasses, mixed with plain SimEvents
+                    if kind == "now":
+                        t, prio = sim.simulator_time, a[2]
+                    elif kind == "rel":
+                        d = self.tv(a[1])
+                        if not float(d) >= 0:
+                            raise DSOLError("negative delay")
+                        t, prio = sim.simulator_time + d, a[3]
+                    else:
+                        t, prio = self.tv(a[1]), a[3]
+                    cls = SubEventA if child % 3 == 1 else SubEventB
+                    ev = sim.schedule_event(cls(t, model, "h", prio, eid=child))
+                elif self.prog.get("custom_events") in (True, "both") and child % 3 == 0:
                     # an own SimEventInterface implementation, handed over as an object
                     if kind == "now":
                         t, prio = sim.simulator_time, a[2]
@@ -374,7 +412,8 @@ class Runner:
         elif kind == "fail":
             self.fault("handler_raise")
             H.append(("req", owner, idx, "raise"))
-            raise EXC_TYPES[a[1]]("injected fault in %s" % owner)
+            raise EXC_TYPES[a[1]](FAULT_MESSAGES[int(owner or 0) % len(FAULT_MESSAGES)]
+                                  % owner)
         elif kind == "cmd":
             self.do_cmd_from_callback(a[1:], "handler", owner, idx)
         elif kind == "strategy":
@@ -451,6 +490,24 @@ class Runner:
         finally:
             det.atomic -= 1
 
+    def predicates(self):
+        """The documented state predicates must agree with run_state."""
+        sim = self.sim
+        det = self.hist.det
+        det.atomic += 1
+        try:
+            rs = sim.run_state.name
+            got = (sim.is_initialized(), sim.is_starting_or_running(),
+                   sim.is_stopping_or_stopped())
+        finally:
+            det.atomic -= 1
+        exp = (rs != "NOT_INITIALIZED", rs in ("STARTING", "STARTED"),
+               rs not in ("STARTING", "STARTED"))
+        if got != exp:
+            return ("in run_state %s: (is_initialized, is_starting_or_running, "
+                    "is_stopping_or_stopped) = %s, documented %s" % (rs, got, exp))
+        return None
+
     def _call(self, cmd):
         sim = self.sim
         name = cmd[0]
@@ -471,6 +528,14 @@ class Runner:
         elif name == "initialize":
             rep = self.make_replication(cmd[1] if len(cmd) > 1 else None)
             sim.initialize(self.model, rep)
+            self.subscribe()
+        elif name == "initialize_failing":
+            self.model.fail_construct = True
+            rep = self.make_replication(cmd[1] if len(cmd) > 1 else None)
+            try:
+                sim.initialize(self.model, rep)
+            finally:
+                self.model.fail_construct = False
             self.subscribe()
         elif name == "initialize_b":
             # a second model object (same program) on the same simulator
@@ -495,6 +560,9 @@ class Runner:
             det.settle()
             H.append(("quiet", self.cmd_index) + self.snapshot()
                      + (len(det.live_threads()),))
+            bad = self.predicates()
+            if bad:
+                H.append(("predicate-mismatch", self.cmd_index, bad))
             return None
         if name == "poll":
             # the idiom of the tests: while sim.is_starting_or_running(): sleep
@@ -661,6 +729,9 @@ class Runner:
         case = self.case
         sc = case.get("sched") or {}
         SimEvent._SimEvent__event_counter = case.get("id_offset", 0)
+        for cls in (SubEventA, SubEventB):
+            if "_SimEvent__event_counter" in cls.__dict__:
+                delattr(cls, "_SimEvent__event_counter")
         self.sim = self.make_simulator()
         strategy = case.get("strategy")
         if strategy is not None:
@@ -683,8 +754,12 @@ class Runner:
                 return dt * (1.0 + _r.random() * (_f - 1.0))
         det = detsim.Sim(self.make_schedule(),
                          step_cost=sc.get("step_cost_us", 0) * 1e-6,
-                         max_steps=case.get("max_steps", 200000),
+                         max_steps=case.get("max_steps", 200000)
+                         * (8 if sc.get("opcodes") else 1),   # (a step is a bytecode then)
                          oversleep=oversleep, watch=self.watch)
+        if sc.get("opcodes"):
+            # fault granularity: pre-emption between the bytecodes of simulator.py
+            det.opcode_tags = {detsim.TARGETS[_simmod.__file__]}
         if sc.get("stall"):
             det.stall_rng = common.rng_for(sc.get("seed", 0), "stall")
             det.stall_prob = sc["stall"]
